@@ -144,6 +144,7 @@ fn as_path_wf(b: &[u8]) -> bool {
 }
 
 struct Case {
+    shard: u32,
     srcs: Vec<Arc<Source>>,
     lims: Vec<Option<u32>>,
     attrs: Vec<Attrs>,
@@ -165,9 +166,22 @@ fn parse_role(t: &Term) -> Option<PeerRole> {
 fn parse_case(line: &str) -> Option<Case> {
     let t = Term::parse(line)?;
     let body = t.tagged("case")?;
-    if body.len() != 3 {
+    if body.len() != 3 && body.len() != 4 {
         return None;
     }
+    let shard = if body.len() == 4 {
+        let f = body[3].tagged("shard")?;
+        if f.len() != 1 {
+            return None;
+        }
+        let k = f[0].as_u64()?;
+        if k > 254 {
+            return None;
+        }
+        k as u32
+    } else {
+        0
+    };
     let mut srcs = Vec::new();
     let mut lims = Vec::new();
     for s in body[0].tagged("srcs")? {
@@ -327,7 +341,7 @@ fn parse_case(line: &str) -> Option<Case> {
                         return None;
                     }
                     // a purge of a peer may only be handed the counter of a session of that peer
-                    if srcs[s as usize].remote_addr != peer_addr(addr) {
+                    if srcs[s as usize].remote_addr != peer_addr(addr) || lims[s as usize].is_none() {
                         return None;
                     }
                     // ... and only when that session is the peer's only one (purges settle by address)
@@ -353,7 +367,7 @@ fn parse_case(line: &str) -> Option<Case> {
         }
     }
     fams.sort();
-    Some(Case { srcs, lims, attrs, ops, fams })
+    Some(Case { shard, srcs, lims, attrs, ops, fams })
 }
 
 struct World {
@@ -411,7 +425,11 @@ impl World {
                 Some(i) => Term::nat(i),
                 None => Term::atom("-"),
             },
-            Term::nat(c.ecmp_paths().len() as u64),
+            match c.new_best() {
+                Some(p) => Term::nat(p.local_path_id),
+                None => Term::atom("-"),
+            },
+            Term::list(c.ecmp_paths().iter().map(|p| Term::nat(p.local_path_id)).collect()),
         ];
         for p in c.current_paths.iter() {
             v.push(self.path(p));
@@ -522,77 +540,89 @@ impl World {
         }
     }
 
-    fn dump(&self) -> Vec<Term> {
+    /// coverage markers of a step (mirrors `covOf` in lean/Rbgp/Rib/Obs.lean)
+    fn cov(&self, op: &Term, res: &Term) -> Vec<Term> {
+        let head = op.head().unwrap_or("");
+        let changes: Vec<&Term> = match res.as_list() {
+            Some(l) if !l.is_empty() && (l[0].as_atom() == Some("ch") || l[0].as_atom() == Some("chs")) => l[1..].iter().collect(),
+            _ => vec![],
+        };
+        let any_best = changes.iter().any(|c| c.as_list().and_then(|l| l.get(3)).and_then(|b| b.as_bool()) == Some(true));
         let mut out = Vec::new();
+        if matches!(head, "drop" | "dstale" | "dllgr" | "dnollgr") && !changes.is_empty() {
+            out.push(Term::atom("purge-hit"));
+        }
+        if head == "restale" && any_best {
+            out.push(Term::atom("restale-rebest"));
+        }
+        if head == "restale-llgr" && any_best {
+            out.push(Term::atom("restale-llgr-rebest"));
+        }
+        let mut ids: Vec<u32> = Vec::new();
         for f in [Fam::V4, Fam::Ev] {
-            // all paths, ranked, including filtered ones
-            let mut dests: Vec<(Net, Term)> = self
-                .table
-                .destinations(TableQuery::Global, f.fam(), vec![], true)
-                .map(|d| {
-                    let n = Net::of_nlri(&d.net).unwrap_or(Net { t2: false, k: 9999 });
-                    let mut v = vec![n.term()];
-                    for p in &d.paths {
-                        v.push(Term::list(vec![
+            ids.extend(self.table.collect_loc_rib_paths(&f.fam()).iter().map(|c| c.dest_id & 0x00ff_ffff));
+        }
+        if ids.iter().any(|i| *i >= 64) {
+            out.push(Term::atom("id-ge-64"));
+        }
+        if ids.iter().any(|i| *i >= 128) {
+            out.push(Term::atom("id-ge-128"));
+        }
+        out
+    }
+
+    fn dests_view(&self, q: TableQuery, f: Fam, enable_filtered: bool) -> Vec<(Net, Vec<Term>)> {
+        let mut dests: Vec<(Net, Vec<Term>)> = self
+            .table
+            .destinations(q, f.fam(), vec![], enable_filtered)
+            .map(|d| {
+                let n = Net::of_nlri(&d.net).unwrap_or(Net { t2: false, k: 9999 });
+                let v = d
+                    .paths
+                    .iter()
+                    .map(|p| {
+                        Term::list(vec![
                             self.src_id(&p.source),
                             Term::nat(p.remote_path_id),
                             self.attr_id(&p.attr),
                             Term::boolean(p.stale),
                             Term::boolean(p.filtered),
-                        ]));
-                    }
-                    (n, Term::list(v))
-                })
-                .collect();
-            dests.sort_by_key(|x| x.0);
-            let mut loc: Vec<(Net, Term)> = self
-                .table
-                .collect_loc_rib_paths(&f.fam())
-                .iter()
-                .map(|c| {
-                    let n = Net::of_nlri(&c.net).unwrap_or(Net { t2: false, k: 9999 });
-                    let mut v = vec![n.term(), Term::nat(c.dest_id), Term::nat(c.ecmp_paths().len() as u64)];
-                    for p in c.current_paths.iter() {
-                        v.push(self.path(p));
-                    }
-                    (n, Term::list(v))
-                })
-                .collect();
-            loc.sort_by_key(|x| x.0);
-            let mut lim2: Vec<(Net, Term)> = self
-                .table
-                .collect_loc_rib_paths_limited(&f.fam(), 2)
-                .iter()
-                .map(|c| {
-                    let n = Net::of_nlri(&c.net).unwrap_or(Net { t2: false, k: 9999 });
-                    let mut v = vec![n.term()];
-                    for p in c.current_paths.iter() {
-                        v.push(Term::nat(p.local_path_id));
-                    }
-                    (n, Term::list(v))
-                })
-                .collect();
-            lim2.sort_by_key(|x| x.0);
-            let st = self.table.state(f.fam());
-            out.push(Term::tag(
-                "fam",
-                vec![
-                    f.atom(),
-                    Term::tag("dests", dests.into_iter().map(|x| x.1).collect()),
-                    Term::tag("loc", loc.into_iter().map(|x| x.1).collect()),
-                    Term::tag("lim2", lim2.into_iter().map(|x| x.1).collect()),
-                    Term::tag(
-                        "state",
-                        vec![
-                            Term::nat(st.num_destination as u64),
-                            Term::nat(st.num_path as u64),
-                            Term::nat(st.num_accepted as u64),
-                        ],
-                    ),
-                ],
-            ));
-        }
-        // per-peer statistics, for every peer address of the case
+                        ])
+                    })
+                    .collect();
+                (n, v)
+            })
+            .collect();
+        dests.sort_by_key(|x| x.0);
+        dests
+    }
+    fn dests_terms(v: Vec<(Net, Vec<Term>)>) -> Vec<Term> {
+        v.into_iter()
+            .map(|(n, mut ps)| {
+                let mut t = vec![n.term()];
+                t.append(&mut ps);
+                Term::list(t)
+            })
+            .collect()
+    }
+    fn lim(&self, f: Fam, k: usize) -> Vec<Term> {
+        let mut lim: Vec<(Net, Term)> = self
+            .table
+            .collect_loc_rib_paths_limited(&f.fam(), k)
+            .iter()
+            .map(|c| {
+                let n = Net::of_nlri(&c.net).unwrap_or(Net { t2: false, k: 9999 });
+                let mut v = vec![n.term()];
+                for p in c.current_paths.iter() {
+                    v.push(Term::nat(p.local_path_id));
+                }
+                (n, Term::list(v))
+            })
+            .collect();
+        lim.sort_by_key(|x| x.0);
+        lim.into_iter().map(|x| x.1).collect()
+    }
+    fn addrs(&self) -> Vec<u8> {
         let mut addrs: Vec<u8> = self
             .case
             .srcs
@@ -604,6 +634,74 @@ impl World {
             .collect();
         addrs.sort();
         addrs.dedup();
+        addrs
+    }
+
+    fn dump(&self) -> Vec<Term> {
+        let mut out = Vec::new();
+        for f in [Fam::V4, Fam::Ev] {
+            // all paths, ranked, including filtered ones; and what ListPath shows by default
+            let dests = Self::dests_terms(self.dests_view(TableQuery::Global, f, true));
+            let nofilt = Self::dests_terms(self.dests_view(TableQuery::Global, f, false));
+            let mut loc: Vec<(Net, Term)> = self
+                .table
+                .collect_loc_rib_paths(&f.fam())
+                .iter()
+                .map(|c| {
+                    let n = Net::of_nlri(&c.net).unwrap_or(Net { t2: false, k: 9999 });
+                    let mut v = vec![
+                        n.term(),
+                        Term::nat(c.dest_id),
+                        Term::list(c.ecmp_paths().iter().map(|p| Term::nat(p.local_path_id)).collect()),
+                    ];
+                    for p in c.current_paths.iter() {
+                        v.push(self.path(p));
+                    }
+                    (n, Term::list(v))
+                })
+                .collect();
+            loc.sort_by_key(|x| x.0);
+            let st = self.table.state(f.fam());
+            let mut adjin = Vec::new();
+            let mut rslocal = Vec::new();
+            for a in self.addrs() {
+                let peer = peer_addr(a as u64);
+                let mut v = vec![Term::nat(a)];
+                v.append(&mut Self::dests_terms(self.dests_view(TableQuery::AdjIn(peer), f, true)));
+                adjin.push(Term::list(v));
+                let mut v = vec![Term::nat(a)];
+                for (n, ps) in self.dests_view(TableQuery::RsLocal(peer), f, true) {
+                    // one path per prefix
+                    let mut t = vec![n.term()];
+                    t.extend(ps);
+                    v.push(Term::list(t));
+                }
+                rslocal.push(Term::list(v));
+            }
+            out.push(Term::tag(
+                "fam",
+                vec![
+                    f.atom(),
+                    Term::tag("dests", dests),
+                    Term::tag("nofilt", nofilt),
+                    Term::tag("loc", loc.into_iter().map(|x| x.1).collect()),
+                    Term::tag("lim2", self.lim(f, 2)),
+                    Term::tag("lim3", self.lim(f, 3)),
+                    Term::tag(
+                        "state",
+                        vec![
+                            Term::nat(st.num_destination as u64),
+                            Term::nat(st.num_path as u64),
+                            Term::nat(st.num_accepted as u64),
+                        ],
+                    ),
+                    Term::tag("adjin", adjin),
+                    Term::tag("rslocal", rslocal),
+                ],
+            ));
+        }
+        // per-peer statistics, for every peer address of the case
+        let addrs = self.addrs();
         let mut stats = Vec::new();
         for a in addrs {
             if let Some(it) = self.table.peer_stats(&peer_addr(a as u64)) {
@@ -658,13 +756,16 @@ pub fn run_case(line: &str) -> String {
         return "(bad-case)".to_string();
     };
     let ops = case.ops.clone();
-    let mut w = World { case, table: Table::new(0), ctrs: HashMap::new() };
+    let shard = case.shard;
+    let mut w = World { case, table: Table::new(shard), ctrs: HashMap::new() };
     let mut steps: Vec<Term> = vec![Term::atom("obs")];
     for op in &ops {
         let r = std::panic::catch_unwind(std::panic::AssertUnwindSafe(|| {
             let res = w.apply(op);
+            let cov = w.cov(op, &res);
             let mut v = vec![res];
             v.append(&mut w.dump());
+            v.push(Term::tag("cov", cov));
             Term::tag("st", v)
         }));
         match r {
